@@ -56,16 +56,16 @@ type dripTrace struct {
 	Model  []dripStep `json:"model"`
 }
 
-// collect markers from the pool's wounds channel without blocking the writer
+// collect markers from the pool's wounds channel. The channel is large enough never to block the pool's relay
+// (a broken pool may emit far more markers than blocks) and is drained synchronously by the driver: once Close
+// has returned the relay goroutine has handed over everything, so the drain is deterministic.
 type woundSink struct {
-	ch   chan *pwr.Wound
-	done chan struct{}
-	got  []marker
+	ch  chan *pwr.Wound
+	got []marker
 }
 
 func newWoundSink() *woundSink {
-	s := &woundSink{ch: make(chan *pwr.Wound, 4096), done: make(chan struct{})}
-	return s
+	return &woundSink{ch: make(chan *pwr.Wound, 2<<20)}
 }
 
 func (s *woundSink) drain() {
@@ -78,7 +78,9 @@ func (s *woundSink) drain() {
 			} else if w.Kind != pwr.WoundKind_FILE {
 				k = fmt.Sprintf("kind%d", w.Kind)
 			}
-			s.got = append(s.got, marker{K: k, S: w.Start, E: w.End})
+			if len(s.got) < 200000 {
+				s.got = append(s.got, marker{K: k, S: w.Start, E: w.End})
+			}
 		default:
 			return
 		}
